@@ -669,7 +669,7 @@ result_t SingleDataField::read(const SymbolString& data, size_t offset,
     }
     if (outputIndex >= 0 || m_name.empty() || !(outputFormat & OF_NAMES)) {
       if (fieldIndex < 0) {
-        *output << "\"" << static_cast<signed int>(outputIndex < 0 ? 0 : outputIndex) << "\":";
+        *output << "\"" << dec << static_cast<signed int>(outputIndex < 0 ? 0 : outputIndex) << "\":";
       }
       if (!shortFormat) {
         *output << " {\"name\": \"" << m_name << "\", \"value\": ";
